@@ -71,7 +71,7 @@ function invokeSlot(fn, ctx, seen) {
     const res = fn();
     return canonValue(res, ctx, seen);
   } catch (e) {
-    return { throws: `${e && e.name}: ${e && e.message}` };
+    return { throws: String(e && e.name) }; // engine messages name variables; only the error class is canonical
   }
 }
 
